@@ -98,8 +98,18 @@ def run(ctx, prop):
                  {"k": "interface", "name": "IOther", "base": "IShape", "members": [
                      {"k": "method", "name": "area", "optional": False, "doc": None, "params": [{"dir": "out", "type": "uint64", "arr": None, "name": "a"}]}]}]
         work.append(("gen", {"id": f"C11-named-{fname}", "files": [{"path": fname, "nodes": nodes}], "main": fname, "incdirs": [], "no_java": True}))
+    def no_int64_min(case):
+        """the most negative int64 literal does not compile warning-clean in C/C++ (known finding
+        K11-int64MinConst, re-confirmed by its witness on every run): generated cases use the
+        next value so that one drawn boundary constant does not mask everything else in its file"""
+        for f_ in case["files"]:
+            for n_ in f_["nodes"]:
+                for c_ in ([n_] if n_["k"] == "const" else [m_ for m_ in n_.get("members", []) if m_["k"] == "const"]):
+                    if c_["type"] == "int64" and c_["value"].lower() in ("-9223372036854775808", "-0x8000000000000000"):
+                        c_["value"] = "-9223372036854775807"
+        return case
     for i in range(n):
-        work.append(("gen", fix_for_cpp(gen.gen_case(ctx.rng, c11_opts(), cid=f"C11-{ctx.seed}-{i}"))))
+        work.append(("gen", no_int64_min(fix_for_cpp(gen.gen_case(ctx.rng, c11_opts(), cid=f"C11-{ctx.seed}-{i}")))))
     configs = [("gcc", "g++", True), ("clang", "clang++", True), ("gcc", "g++", False)]
     if ctx.tier == "thorough":
         configs.append(("clang", "clang++", False))
